@@ -101,6 +101,43 @@ var mutations = []mutation{
 		fixExtrinsicHash(b)
 		return true
 	}},
+	{name: "ticket-already-in-accumulator", stage: 5, mustReject: "C23", apply: func(ru *run, p *chainBlock, b *types.Block, _ *[]types.Ed25519Public) bool {
+		// resubmit a ticket that the prior accumulator still holds (same epoch), next to the block's own tickets
+		e, _ := epochOf(p.state.Tau)
+		e2, m2 := epochOf(b.Header.Slot)
+		if e2 != e || int(m2) >= types.SlotSubmissionEnd || len(p.state.Gamma.GammaA) == 0 || len(b.Extrinsic.Tickets) >= types.MaxTicketsPerBlock {
+			return false
+		}
+		held := p.state.Gamma.GammaA[ru.t.Choose(len(p.state.Gamma.GammaA), "held")]
+		o, ok := ru.a.owners[held.ID]
+		if !ok {
+			return false
+		}
+		picks := [][2]int{{o.val, int(o.attempt)}}
+		for _, env := range b.Extrinsic.Tickets {
+			var id types.TicketID
+			copy(id[:], env.Signature[:32])
+			if oo, ok := ru.a.owners[id]; ok {
+				picks = append(picks, [2]int{oo.val, int(oo.attempt)})
+			}
+		}
+		nt := ru.a.mkTickets(p.state, b.Header.Slot, picks)
+		if len(nt) != len(b.Extrinsic.Tickets)+1 {
+			return false
+		}
+		found := false
+		for _, env := range nt {
+			if string(env.Signature[:32]) == string(held.ID[:]) {
+				found = true
+			}
+		}
+		if !found {
+			return false // the held ticket was made under another entropy (cannot happen within one epoch)
+		}
+		b.Extrinsic.Tickets = nt
+		fixExtrinsicHash(b)
+		return true
+	}},
 	{name: "ticket-over-attempt", stage: 5, mustReject: "C23", apply: func(ru *run, p *chainBlock, b *types.Block, _ *[]types.Ed25519Public) bool {
 		_, m2 := epochOf(b.Header.Slot)
 		if int(m2) >= types.SlotSubmissionEnd {
